@@ -128,6 +128,9 @@ class Cache(object):
                     "Cache {}".format(self._filename) +
                     " exists and readable, but can't be removed"
                 )
+            if not os.path.lexists(self._filename):
+                # no cache to remove
+                return
             raise err
 
     def __repr__(self):
